@@ -38,7 +38,11 @@ POS_QUERIES = ["pos", "?0", "?1", "(|A| A pos)", "!0 \"later\""]       # the pos
 FILE_DEP_QUERIES = ["(|D| D entry ?TAG_enumerator name)", "(|D| D entry ?TAG_structure_type offset)",
                     "(|D| D symbol (name == \"main\") name)", "(|D| D entry ?TAG_subprogram (pos < 9) name)"]
 ARGS = [("-a", "str"), ("-a", "x y"), ("-a", "50%% off %s"), ("-a", 'q"\\%(1%)'), ("--a", "5"), ("--a", "(1, 2)"), ("--a", "(1, 2, 3) 10 mul"), ("--a", "!()"), ("--a", "\"s\""),
-        ("--a", "[1, 2]")]
+        ("--a", "[1, 2]"), ("--a", "(1, 0, 2)"), ("--a", "(0, 3)"), ("--a", "(2, 1, 0, 4)")]
+# queries that fail at run time on some inputs only, after having yielded results: what one input did must not
+# show in what is reported for the next (counts, match status, headers)
+FAIL_ARG_QUERIES = ["(|A| 1, 2, 6 A div)", "(|A| A, 6 A div, 9)", "(|A| (1, 2, 3) (6 A 1 sub div))", "(|A| A \"x\", A 1 add)"]
+FAIL_FILE_QUERIES = ["(|D| D name, D entry (pos < 2) offset)", "(|D| 1, 2, D entry (pos == 0) offset)"]
 FILES = ["/repo/tests/a1.out", "/repo/tests/enum.o", "/repo/tests/nontrivial-types.o", "/repo/tests/y.o",
          os.path.join(RUN, "c19-not-elf.txt"), os.path.join(RUN, "c19-missing-file")]
 
@@ -148,6 +152,7 @@ def expected(drv, case, handles):
         match = False
         errors = False
         per_iter = []
+        failed = []
         for combo in itertools.product(*lists):     # row-major: the last list varies fastest
             shown = []
             for i, (item, l) in enumerate(zip(combo, lists)):
@@ -159,6 +164,7 @@ def expected(drv, case, handles):
                 err_lib = True
             count = 0
             per_iter.append(len(r.get("res", [])))
+            failed.append("error" in r)
             for st in r.get("res", []):
                 if q:
                     return {"rc": 0, "stdout": b"", "err_driver": None, "err_lib": None, "early": True}
@@ -182,7 +188,7 @@ def expected(drv, case, handles):
                     out += header + b":"
                 out += b"%d\n" % count
         rc = 2 if errors else (0 if match else 1)
-        return {"rc": rc, "stdout": out, "err_driver": err_driver, "err_lib": err_lib, "early": False, "iters": per_iter}
+        return {"rc": rc, "stdout": out, "err_driver": err_driver, "err_lib": err_lib, "early": False, "iters": per_iter, "failed": failed}
     finally:
         drv.req("qdestroy %d" % qid)
 
@@ -225,6 +231,9 @@ def check_case(drv, ev, case, handles, idx):
         ev.label("iterations:match-then-none")
     if len(it) >= 2 and it[0] == 0 and any(it):
         ev.label("iterations:none-then-match")
+    fl = exp.get("failed") or []
+    if any(fl[k] and it[k] > 0 and not all(fl[k + 1:]) for k in range(len(fl) - 1)):
+        ev.label("iterations:results-then-failure-then-an-input-that-completes" + (" with -c" if "-c" in case.flags and "-q" not in case.flags else ""))
     for f in case.flags:
         ev.label("flag:" + f)
     bad = None
@@ -263,6 +272,14 @@ def open_handles(drv):
 
 
 def make_case(rnd):
+    if rnd.random() < 0.12:
+        # several inputs, the query failing on some of them only (after results), mostly counted
+        flags = [f for f in ("-s", "-H", "-h") if rnd.random() < 0.25] + (["-c"] if rnd.random() < 0.7 else []) + (["-q"] if rnd.random() < 0.1 else [])
+        source = rnd.choice(["-e", "-f", "-f-", "pos"])
+        if rnd.random() < 0.5:
+            files = [rnd.choice([FILES[0], FILES[1], FILES[3], FILES[3]]) for _ in range(rnd.randint(2, 3))]     # FILES[3]: ELF without DWARF
+            return Case(flags, source, rnd.choice(FAIL_FILE_QUERIES), files, [])
+        return Case(flags, source, rnd.choice(FAIL_ARG_QUERIES), [], [("--a", rnd.choice(["(1, 0, 2)", "(0, 3)", "(2, 1, 0, 4)", "(0, 0, 5)", "(1, 2)"]))])
     flags = [f for f in ("-q", "-s", "-c", "-H", "-h") if rnd.random() < 0.3]
     source = rnd.choice(["-e", "-e", "-f", "-f-", "pos"])
     nf = rnd.choice([0, 0, 1, 1, 2, 3])
@@ -278,6 +295,10 @@ def make_case(rnd):
         pool += ARG_DEP_QUERIES * 2
     if args or files:
         pool += POS_QUERIES
+    if args and not files:
+        pool += FAIL_ARG_QUERIES * 2
+    if files and not args:
+        pool += FAIL_FILE_QUERIES * 2
     query = rnd.choice(pool)
     if source == "pos" and query == "":
         source = "-e"
@@ -364,7 +385,9 @@ def main(tier, seed):
                           "all statuses": all(ev.labels.get("rc:%d" % k, 0) > 20 for k in (0, 1, 2)),
                           "laws": ev.labels.get("law:-a", 0) > 10 and ev.labels.get("law:sources", 0) > 10,
                           "iterations whose outcome differs": ev.labels.get("iterations:match-then-none", 0) > 10
-                          and ev.labels.get("iterations:none-then-match", 0) > 10})
+                          and ev.labels.get("iterations:none-then-match", 0) > 10,
+                          "an input that fails after yielding results is followed by one that completes, with -c":
+                          ev.labels.get("iterations:results-then-failure-then-an-input-that-completes with -c", 0) > 10})
 
 
 def replay(path):
